@@ -22,7 +22,17 @@ func genKVHistoryCase(modes []int, segs []int64, minB, maxB int, reopenWeight in
 			buckets = buckets[:1]
 		}
 		n := rapid.IntRange(1, maxSteps).Draw(t, "nsteps")
+		var clk *clockGen
+		if rapid.IntRange(0, 9).Draw(t, "clocked") < 3 {
+			// virtual clock: records expire while the case runs, reads happen at, just before and just after expiry instants
+			clk = &clockGen{Now: clockBase + int64(rapid.IntRange(0, 1000).Draw(t, "clock0"))}
+			c.Steps = append(c.Steps, Step{K: "clock", T: clk.Now})
+		}
 		for i := 0; i < n; i++ {
+			if clk != nil && rapid.IntRange(0, 7).Draw(t, "isclock") == 3 {
+				c.Steps = append(c.Steps, clk.step(t))
+				continue
+			}
 			if rapid.IntRange(0, 99).Draw(t, "isreopen") < reopenWeight {
 				c.Steps = append(c.Steps, Step{K: "reopen"})
 				continue
@@ -35,7 +45,7 @@ func genKVHistoryCase(modes []int, segs []int64, minB, maxB int, reopenWeight in
 			nops := rapid.IntRange(1, shape.MaxOps).Draw(t, "nops")
 			st := Step{K: "tx", Managed: rapid.Bool().Draw(t, "managed")}
 			for j := 0; j < nops; j++ {
-				st.Ops = append(st.Ops, genKVWrite(buckets, keys, true).Draw(t, "op"))
+				st.Ops = append(st.Ops, genKVWriteClocked(buckets, keys, true, clk).Draw(t, "op"))
 			}
 			c.Steps = append(c.Steps, st)
 		}
@@ -136,6 +146,27 @@ func pickOutcome(m *Model, op Op, r Res) (*Outcome, error) {
 // kvClasses classifies what a KV history exercised.
 type kvClass struct {
 	rotations, reopenThenRead, deadInRange, emptyVals, fills, merges int
+	expiredByClock, readAtExpiryInstant                              int
+}
+
+// clockEffect reports how many pairs of the model are live at time from and no longer at time to, and how many
+// expire exactly at to or one second after it (a read at to sits on the boundary of the expiry test).
+func clockEffect(m *Model, from, to int64) (expired, boundary int) {
+	for _, mm := range m.KV {
+		for _, it := range mm {
+			e := it.expiry()
+			if e == 0 {
+				continue
+			}
+			if uint64(from) < e && e <= uint64(to) {
+				expired++
+			}
+			if e == uint64(to) || e == uint64(to)+1 {
+				boundary++
+			}
+		}
+	}
+	return
 }
 
 func runKVModelCase(c Case, st *Stats, withSearch bool) error {
@@ -198,6 +229,13 @@ func runKVModelCase(c Case, st *Stats, withSearch bool) error {
 				return fmt.Errorf("step %d: reopen failed: %v", i, err)
 			}
 			cl.reopenThenRead++
+		case "clock":
+			if virtualClock != 0 {
+				e, b := clockEffect(m, virtualClock, s.T)
+				cl.expiredByClock += e
+				cl.readAtExpiryInstant += b
+			}
+			setClock(s.T)
 		case "reads":
 			continue
 		}
@@ -237,6 +275,15 @@ func runKVModelCase(c Case, st *Stats, withSearch bool) error {
 	}
 	if cl.emptyVals > 0 {
 		classes = append(classes, "empty-value")
+	}
+	if virtualClock != 0 {
+		classes = append(classes, "virtual-clock")
+	}
+	if cl.expiredByClock > 0 {
+		classes = append(classes, "pair-expired-while-the-case-ran")
+	}
+	if cl.readAtExpiryInstant > 0 {
+		classes = append(classes, "read-at-or-one-second-before-an-expiry-instant")
 	}
 	if cl.fills > 0 {
 		classes = append(classes, "exact-fill")
